@@ -1788,8 +1788,8 @@ impl GlyphBuffer {
 
         let info = self.glyph_infos();
         let pos = self.glyph_positions();
-        let mut x = 0;
-        let mut y = 0;
+        let mut x: i32 = 0;
+        let mut y: i32 = 0;
         for (info, pos) in info.iter().zip(pos) {
             if !flags.contains(SerializeFlags::NO_GLYPH_NAMES) {
                 match face.glyph_name(info.as_glyph()) {
@@ -1805,8 +1805,9 @@ impl GlyphBuffer {
             }
 
             if !flags.contains(SerializeFlags::NO_POSITIONS) {
-                if x + pos.x_offset != 0 || y + pos.y_offset != 0 {
-                    write!(&mut s, "@{},{}", x + pos.x_offset, y + pos.y_offset)?;
+                let (px, py) = (x.wrapping_add(pos.x_offset), y.wrapping_add(pos.y_offset));
+                if px != 0 || py != 0 {
+                    write!(&mut s, "@{},{}", px, py)?;
                 }
 
                 if !flags.contains(SerializeFlags::NO_ADVANCES) {
@@ -1834,8 +1835,8 @@ impl GlyphBuffer {
             }
 
             if flags.contains(SerializeFlags::NO_ADVANCES) {
-                x += pos.x_advance;
-                y += pos.y_advance;
+                x = x.wrapping_add(pos.x_advance);
+                y = y.wrapping_add(pos.y_advance);
             }
 
             s.push('|');
